@@ -288,6 +288,16 @@ func cmdCheck(args []string) int {
 		}
 	}
 	e, hf, err := loadEngine(cfg)
+	if e != nil {
+		e.knownLabel = func(harness, label string) bool {
+			for i := range known {
+				if known[i].matches(*prop, harness, label) {
+					return true
+				}
+			}
+			return false
+		}
+	}
 	if err != nil {
 		fmt.Fprintln(os.Stderr, "MACHINERY-FAULT load:", err)
 		return 2
